@@ -1,7 +1,6 @@
-(* decode (encode v ++ rest) = v and size v = |encode v| for every value of the FLAT fragment of any schema:
-   aliases, enums and structs (no parent, no @size window, no conditional / sizeof / sizeref / fill / aligned members) whose
-   members are plain or reserved integers, count or byte-size members, named members of the fragment, byte arrays and counted
-   typed arrays (keyed or not) of the fragment - nested to any depth.  The induction is on the fuel of the interpreter. *)
+(* decode (encode v ++ rest) = v and size v = |encode v| for every value of the fragment `adm` of any schema:
+   aliases, enums and structs (without parent, or concrete with an abstract parent - with or without @size window) whose members are of the
+   kinds classified in StructProofs.v, nested to any depth.  The induction is on the nesting depth; the fuel of the interpreter follows. *)
 From Symv Require Import Base.Bytes Base.PyOps Base.BytesLemmas Cats.Layout Cats.LayoutInst Cats.LayoutProofs Cats.ArrayProofs Cats.LayoutLaws
   Cats.LayoutInstProofs Cats.StructProofs.
 From Coq Require Import Lia ZifyBool.
@@ -24,10 +23,8 @@ Record flat_struct (s : struct) : Prop := {
   fs_concrete : s_disp s <> SdAbstract;
   fs_names : NoDup (map f_name (struct_fields_nc s));
   fs_no_size_member : forall f, In f (struct_fields_nc s) -> f_name f <> "size";
-  fs_ordered : ordered tm (struct_fields_nc s) [] (struct_fields_nc s);
-  fs_fixed : exists f, In f (struct_fields_nc s) /\
-             ((exists k i, classify tm (struct_fields_nc s) f = Some k /\ int_kind k = Some i /\ 0 < it_size i) \/
-              (exists t, classify tm (struct_fields_nc s) f = Some (MkNamed t)))
+  fs_ordered : ordered tm (struct_fields_nc s) [] [] (struct_fields_nc s);
+  fs_fixed : exists f, In f (struct_fields_nc s) /\ pos_member tm (struct_fields_nc s) f
 }.
 
 (* a concrete struct with an abstract parent that carries the @size member first (Symbol transactions, blocks, receipts):
@@ -48,14 +45,9 @@ Record based_struct (s a : struct) (f0 : field) (i : intty) (hrest : list field)
   bs_f0_cond : f_cond f0 = None;
   bs_f0_plain : is_reserved f0 = false;
   bs_f0_settable : is_settable (struct_fields_nc s) f0 = true;
-  bs_ordered_h : ordered tm (struct_fields_nc s) [] hrest;
-  bs_ordered_o : ordered tm (struct_fields_nc s) hrest (own_fields tm s)
+  bs_ordered_h : ordered tm (struct_fields_nc s) [] ["size"] hrest;
+  bs_ordered_o : ordered tm (struct_fields_nc s) hrest [] (own_fields tm s)
 }.
-
-(* a member that certainly occupies at least one byte *)
-Definition pos_member (allfs : list field) (f : field) : Prop :=
-  (exists k i, classify tm allfs f = Some k /\ int_kind k = Some i /\ 0 < it_size i) \/
-  (exists t, classify tm allfs f = Some (MkNamed t)).
 
 (* a concrete struct with an abstract parent that has NO @size member (NEM transactions): the parent's _deserialize reads its members
    and hands over the window [consumed, len(buffer)) *)
@@ -69,15 +61,18 @@ Record based_nosize_struct (s a : struct) (hfs : list field) : Prop := {
   bn_attr_a : struct_size_attr a = None;
   bn_attr_s : struct_size_attr s = None;
   bn_no_size_member : forall f, In f (struct_fields_nc s) -> f_name f <> "size";
-  bn_ordered_h : ordered tm (struct_fields_nc s) [] hfs;
-  bn_ordered_o : ordered tm (struct_fields_nc s) hfs (own_fields tm s);
-  bn_fixed : exists f, In f (struct_fields_nc s) /\ pos_member (struct_fields_nc s) f
+  bn_ordered_h : ordered tm (struct_fields_nc s) [] [] hfs;
+  bn_ordered_o : ordered tm (struct_fields_nc s) hfs [] (own_fields tm s);
+  bn_fixed : exists f, In f (struct_fields_nc s) /\ pos_member tm (struct_fields_nc s) f
 }.
 
 Definition struct_ok (s : struct) : Prop :=
   flat_struct s \/ (exists a f0 i hrest, based_struct s a f0 i hrest) \/ (exists a hfs, based_nosize_struct s a hfs).
 
-(* the members a value must type: all of them, except the leading @size member of a struct with a parent (it is not part of the value) *)
+Lemma struct_ok_concrete s : struct_ok s -> s_disp s <> SdAbstract.
+Proof. intros [H|[(a & f0 & i & hrest & H)|(a & hfs & H)]]; now destruct H. Qed.
+
+(* the members a value must type: all of them, except the leading @size member of a struct whose parent has one (it is not part of the value) *)
 Definition typed_members (s : struct) : list field :=
   match base_struct tm s with
   | Some a => match struct_size_attr a, struct_fields_nc s with Some _, f0 :: r => r | _, l => l end
@@ -113,6 +108,14 @@ Fixpoint adm (n : nat) (t : string) (v : value) : Prop :=
   | _ => False
   end.
 
+Lemma adm_not_abs n t v : adm n t v -> is_abs tm t = false.
+Proof.
+  unfold is_abs, lookup_struct. destruct v as [z|b|l|cls vs|]; destruct n; cbn [adm]; try contradiction.
+  1-4: destruct (lookup tm t) as [[? [?|?] ?|? ? ? ? ?|?]|]; intros H; try contradiction; reflexivity.
+  intros (-> & H). unfold lookup_struct in H. destruct (lookup tm cls) as [[| |s]|]; try contradiction.
+  destruct H as (_ & Hok & _). pose proof (struct_ok_concrete s Hok). destruct (s_disp s); try reflexivity; congruence.
+Qed.
+
 Lemma own_fields_no_base s : s_factory_type s = None -> own_fields tm s = struct_fields_nc s.
 Proof.
   intros H. unfold own_fields, struct_fields_nc.
@@ -134,36 +137,16 @@ Proof.
   cbn [find fst]. destruct (String.eqb_spec n m) as [->|]; [contradiction|reflexivity].
 Qed.
 
-Lemma settable_sub s f : In f (settable_fields s) -> In f (struct_fields_nc s).
+Lemma settable_filter s f : In f (settable_fields s) -> In f (struct_fields_nc s) /\ is_settable (struct_fields_nc s) f = true.
 Proof.
   unfold settable_fields, struct_fields_nc. intros H.
   assert (H' : In f (filter (is_settable (non_const (s_fields s))) (non_const (s_fields s)))).
   { destruct (filter _ _) as [|g r]; [exact H|]. cbn [drop_first_size] in H. destruct (String.eqb (f_name g) "size"); [now right | exact H]. }
-  apply filter_In in H'. tauto.
+  apply filter_In in H'. exact H'.
 Qed.
 
-Lemma settable_entry s self (adm_t : string -> value -> Prop) f :
-  In f (settable_fields s) -> member_typed tm (struct_fields_nc s) adm_t self f ->
-  env_entry tm (struct_fields_nc s) self f = vget self (f_name f).
-Proof.
-  intros Hin Hty. unfold settable_fields in Hin.
-  assert (Hs : is_settable (struct_fields_nc s) f = true).
-  { assert (H' : In f (filter (is_settable (non_const (s_fields s))) (non_const (s_fields s)))).
-    { destruct (filter _ _) as [|g r]; [exact Hin|]. cbn [drop_first_size] in Hin. destruct (String.eqb (f_name g) "size"); [now right | exact Hin]. }
-    apply filter_In in H'. exact (proj2 H'). }
-  unfold is_settable in Hs. apply Bool.andb_true_iff in Hs as [Hs Hb]. apply Bool.andb_true_iff in Hs as [Hs _].
-  apply Bool.andb_true_iff in Hs as [_ Hr]. apply Bool.negb_true_iff in Hr.
-  unfold member_typed in Hty. unfold env_entry. destruct (classify tm (struct_fields_nc s) f) as [k|] eqn:Hk; [|contradiction].
-  unfold classify in Hk. destruct (f_cond f); [discriminate|]. destruct (is_sizeof f); [discriminate|]. destruct (is_computed f); [discriminate|].
-  destruct (f_type f).
-  - destruct (it_size i <? 0); [discriminate|]. rewrite Hr in Hk.
-    destruct (bound_field (struct_fields_nc s) f); [discriminate|]. now injection Hk as <-.
-  - destruct (negb (is_reserved f) && not_abstract tm s0); [|discriminate].
-    destruct (bound_field (struct_fields_nc s) f); [discriminate|]. destruct (size_fields_of (struct_fields_nc s) f); [|discriminate]. now injection Hk as <-.
-  - destruct (bound_field (struct_fields_nc s) f); [discriminate|]. destruct (a_size a); try discriminate.
-    destruct (is_byte_array a); [now injection Hk as <-|].
-    destruct (negb (is_variable_size tm a) && negb (a_byte_constrained a) && (alignment_of a =? 0)); [|discriminate]. now injection Hk as <-.
-Qed.
+Lemma settable_sub s f : In f (settable_fields s) -> In f (struct_fields_nc s).
+Proof. intros H. exact (proj1 (settable_filter s f H)). Qed.
 
 Lemma nodup_map_filter {A B} (f : A -> B) (p : A -> bool) l : NoDup (map f l) -> NoDup (map f (filter p l)).
 Proof.
@@ -185,19 +168,6 @@ Proof. unfold eget. destruct (find _ e); reflexivity. Qed.
 
 Lemma vget_as_find cls vs n : vget (VStruct cls vs) n = option_map snd (find (fun p => String.eqb (fst p) n) vs).
 Proof. unfold vget. destruct (find _ vs); reflexivity. Qed.
-
-Lemma typed_settable_present s (adm_t : string -> value -> Prop) self f :
-  In f (settable_fields s) -> member_typed tm (struct_fields_nc s) adm_t self f -> exists v, vget self (f_name f) = Some v.
-Proof.
-  intros Hin Hty. pose proof (settable_entry s self adm_t f Hin Hty) as He.
-  unfold member_typed in Hty. unfold env_entry in He. destruct (classify tm (struct_fields_nc s) f) as [[i|i n|i g|t|n|a n]|] eqn:Hk; try contradiction.
-  - destruct Hty as [z Hz]. eauto.
-  - (* reserved members are not settable: env_entry = Some n but vget ... ; derive from He *) rewrite <- He. eauto.
-  - destruct Hty as [[b Hb]|[l Hl]]; [rewrite Hb in He | rewrite Hl in He]; rewrite <- He; eauto.
-  - destruct Hty as (v & Hv & _). eauto.
-  - destruct Hty as [b Hb]. eauto.
-  - destruct Hty as (l & Hl & _). eauto.
-Qed.
 
 (* one-step unfoldings of the mutually recursive interpreter (stated once so that proofs never unfold the fixpoint bodies) *)
 Lemma enc_struct_value k t cls vs :
@@ -243,37 +213,6 @@ Lemma dec_struct_S_no_base k s buf : s_disp s <> SdAbstract -> base_struct tm s 
   Ok (VStruct (s_name s) (collect s (fst r)))).
 Proof. intros Hd Hb. cbn [dec_struct]. rewrite Hb. destruct (s_disp s); try reflexivity. contradiction. Qed.
 
-(* the round trip: at nesting depth n every fuel >= 2n + 1 suffices *)
-Definition RT (n : nat) : Prop := forall k, (2 * n + 1 <= k)%nat -> forall t v b rest, adm n t v -> enc OP tm k t v = Ok b ->
-  dec OP tm k t (b ++ rest) = Ok v /\ size OP tm k t v = Ok (Z.of_nat (length b)) /\ (0 < length b)%nat.
-
-Lemma RT_leaf k t v b rest : (1 <= k)%nat -> match v with VInt _ | VBytes _ => True | _ => False end ->
-  adm 0 t v -> enc OP tm k t v = Ok b ->
-  dec OP tm k t (b ++ rest) = Ok v /\ size OP tm k t v = Ok (Z.of_nat (length b)) /\ (0 < length b)%nat.
-Proof.
-  intros Hk Hleaf Hadm Henc. destruct k as [|k]; [lia|].
-  destruct v as [z|bs| | |]; try contradiction; cbn [adm] in Hadm; cbn [enc] in Henc; cbn [dec size].
-  - destruct (lookup tm t) as [[n [i|bn] c|n bi vs at_ c|s]|] eqn:Hl; try contradiction.
-    + destruct Hadm as [Hpos Hu]. rewrite Hu in *. cbn [negb] in *.
-      destruct (py_int_roundtrip _ _ _ _ rest Henc) as [Hx Hlen]. rewrite Hx.
-      assert (Hr : int_in_range (Z.to_nat (it_size i)) false z = true) by (unfold py_to_bytes in Henc; destruct (int_in_range _ _ _); [reflexivity|discriminate]).
-      unfold OP. cbn [base_value_bad ops_now].
-      replace (it_size i) with (Z.of_nat (Z.to_nat (it_size i))) at 1 by lia.
-      rewrite base_value_bad_spec by lia. rewrite Hr. cbn [negb]. repeat split; [f_equal; lia | lia].
-    + destruct Hadm as [Hpos Hv].
-      destruct (py_int_roundtrip _ _ _ _ rest Henc) as [Hx Hlen]. rewrite Hx, Hv. repeat split; [f_equal; lia | lia].
-  - destruct (lookup tm t) as [[n [i|bn] c|n bi vs at_ c|s]|] eqn:Hl; try contradiction.
-    destruct Hadm as [Hpos Hlen]. injection Henc as <-. unfold get_bytes, OP. rewrite get_bytes_bad_now, app_length.
-    replace (Z.of_nat (length bs + length rest) <? bn) with false by lia. cbn [bind].
-    rewrite <- Hlen, zfirstn_app. repeat split; lia.
-Qed.
-
-Lemma adm_leaf_any n t v : match v with VInt _ | VBytes _ => True | _ => False end -> adm n t v -> adm 0 t v.
-Proof. destruct v; try contradiction; intros _ H; destruct n; exact H. Qed.
-
-Lemma nodup_app_l {A} (l1 l2 : list A) : NoDup (l1 ++ l2) -> NoDup l1.
-Proof. induction l1 as [|x l1 IH]; intros H; [constructor|]. cbn in H. inversion H as [|? ? Hn Hd]; subst. constructor; [|now apply IH]. intros Hx. apply Hn. apply in_or_app. now left. Qed.
-
 Lemma dec_struct_S_base k s a buf : s_disp s <> SdAbstract -> base_struct tm s = Some a ->
   dec_struct OP tm (S k) s buf =
   bind (dec_header_with OP tm (Rk k) a (struct_fields_nc s) buf) (fun h =>
@@ -283,24 +222,59 @@ Lemma dec_struct_S_base k s a buf : s_disp s <> SdAbstract -> base_struct tm s =
   Ok (VStruct (s_name s) (collect s (fst r))))).
 Proof. intros Hd Hb. cbn [dec_struct]. rewrite Hb. destruct (s_disp s); try reflexivity. contradiction. Qed.
 
+(* the round trip: at nesting depth n every fuel >= 2n + 1 suffices *)
+Definition RT1 (k : nat) (t : string) (v : value) : Prop :=
+  (forall b rest, enc OP tm k t v = Ok b ->
+     dec OP tm k t (b ++ rest) = Ok v /\ size OP tm k t v = Ok (Z.of_nat (length b)) /\ (0 < length b)%nat) /\
+  (forall sz, size OP tm k t v = Ok sz -> 0 < sz).
+Definition RT (n : nat) : Prop := forall k, (2 * n + 1 <= k)%nat -> forall t v, adm n t v -> RT1 k t v.
+
+Lemma RT_leaf k t v : (1 <= k)%nat -> match v with VInt _ | VBytes _ => True | _ => False end -> adm 0 t v -> RT1 k t v.
+Proof.
+  intros Hk Hleaf Hadm. destruct k as [|k]; [lia|]. split.
+  - intros b rest Henc.
+    destruct v as [z|bs| | |]; try contradiction; cbn [adm] in Hadm; cbn [enc] in Henc; cbn [dec size].
+    + destruct (lookup tm t) as [[n [i|bn] c|n bi vs at_ c|s]|] eqn:Hl; try contradiction.
+      * destruct Hadm as [Hpos Hu]. rewrite Hu in *. cbn [negb] in *.
+        destruct (py_int_roundtrip _ _ _ _ rest Henc) as [Hx Hlen]. rewrite Hx.
+        assert (Hr : int_in_range (Z.to_nat (it_size i)) false z = true) by (unfold py_to_bytes in Henc; destruct (int_in_range _ _ _); [reflexivity|discriminate]).
+        unfold OP. cbn [base_value_bad ops_now].
+        replace (it_size i) with (Z.of_nat (Z.to_nat (it_size i))) at 1 by lia.
+        rewrite base_value_bad_spec by lia. rewrite Hr. cbn [negb]. repeat split; [f_equal; lia | lia].
+      * destruct Hadm as [Hpos Hv].
+        destruct (py_int_roundtrip _ _ _ _ rest Henc) as [Hx Hlen]. rewrite Hx, Hv. repeat split; [f_equal; lia | lia].
+    + destruct (lookup tm t) as [[n [i|bn] c|n bi vs at_ c|s]|] eqn:Hl; try contradiction.
+      destruct Hadm as [Hpos Hlen]. injection Henc as <-. unfold get_bytes, OP. rewrite get_bytes_bad_now, app_length.
+      replace (Z.of_nat (length bs + length rest) <? bn) with false by lia. cbn [bind].
+      rewrite <- Hlen, zfirstn_app. repeat split; lia.
+  - intros sz Hsz. destruct v as [z|bs| | |]; try contradiction; cbn [adm] in Hadm; cbn [size] in Hsz.
+    + destruct (lookup tm t) as [[n [i|bn] c|n bi vs at_ c|s]|] eqn:Hl; try contradiction; injection Hsz as <-; tauto.
+    + destruct (lookup tm t) as [[n [i|bn] c|n bi vs at_ c|s]|] eqn:Hl; try contradiction. injection Hsz as <-. tauto.
+Qed.
+
+Lemma adm_leaf_any n t v : match v with VInt _ | VBytes _ => True | _ => False end -> adm n t v -> adm 0 t v.
+Proof. destruct v; try contradiction; intros _ H; destruct n; exact H. Qed.
+
+Lemma nodup_app_l {A} (l1 l2 : list A) : NoDup (l1 ++ l2) -> NoDup l1.
+Proof. induction l1 as [|x l1 IH]; intros H; [constructor|]. cbn in H. inversion H as [|? ? Hn Hd]; subst. constructor; [|now apply IH]. intros Hx. apply Hn. apply in_or_app. now left. Qed.
+
 (* what the decoder collected is the value's member list *)
-Lemma collect_ok s cls vs (adm_t : string -> value -> Prop) e (covered : list field) :
+Lemma collect_ok R s cls vs (adm_t : string -> value -> Prop) e (covered : list field) :
   NoDup (map f_name (struct_fields_nc s)) ->
   map fst vs = map f_name (settable_fields s) ->
   (forall f, In f (settable_fields s) -> In f covered) ->
-  (forall f, In f covered -> In f (struct_fields_nc s)) ->
   (forall f, In f (settable_fields s) -> member_typed tm (struct_fields_nc s) adm_t (VStruct cls vs) f) ->
-  env_ok tm (struct_fields_nc s) covered e (VStruct cls vs) ->
+  env_ok tm R (struct_fields_nc s) covered e (VStruct cls vs) ->
   collect s e = vs.
 Proof.
-  intros Hnd Hvs Hcov Hsub Hty Henv. unfold collect.
+  intros Hnd Hvs Hcov Hty Henv. unfold collect.
   transitivity (map (fun n0 => (n0, match find (fun p => String.eqb (fst p) n0) vs with Some p => snd p | None => VNull end)) (map fst vs));
     [|apply assoc_rebuild; rewrite Hvs; apply settable_names_nodup; exact Hnd].
   rewrite Hvs, map_map. apply map_ext_in. intros f Hf. f_equal.
   pose proof (Hty f Hf) as Htf.
-  pose proof (Henv f (Hcov f Hf)) as He. rewrite (settable_entry s (VStruct cls vs) adm_t f Hf Htf) in He.
-  destruct (typed_settable_present s adm_t (VStruct cls vs) f Hf Htf) as [v Hv].
-  rewrite eget_as_find in He. rewrite vget_as_find in He, Hv.
+  pose proof (Henv f (Hcov f Hf)) as He.
+  destruct (settable_env_entry tm R (struct_fields_nc s) adm_t (VStruct cls vs) f (proj2 (settable_filter s f Hf)) Htf) as [Hee [v Hv]].
+  rewrite Hee in He. rewrite eget_as_find in He. rewrite vget_as_find in He, Hv.
   destruct (find (fun p => String.eqb (fst p) (f_name f)) e) as [p|], (find (fun p => String.eqb (fst p) (f_name f)) vs) as [q|]; cbn in He, Hv; congruence.
 Qed.
 
@@ -308,35 +282,18 @@ Section OneLevel.
 Variable n : nat.
 Variable k' : nat.
 Hypothesis Hsub : forall t' v' b' rest', adm n t' v' -> enc_t (Rk k') t' v' = Ok b' ->
-  dec_t (Rk k') t' (b' ++ rest') = Ok v' /\ size_t (Rk k') t' v' = Ok (Z.of_nat (length b')) /\ (0 < length b')%nat.
+  dec_any tm (Rk k') t' (b' ++ rest') = Ok v' /\ size_t (Rk k') t' v' = Ok (Z.of_nat (length b')) /\ (0 < length b')%nat.
+Hypothesis Hpos : forall t' v' sz, adm n t' v' -> size_t (Rk k') t' v' = Ok sz -> 0 < sz.
 
-(* a member list containing a member of certainly positive width encodes to at least one byte *)
-Lemma ser_fields_pos sx s self total fs f b :
-  In f fs -> pos_member (struct_fields_nc s) f -> member_typed tm (struct_fields_nc s) (adm n) self f ->
-  serialize_fields_go OP tm (Rk k') sx (struct_fields_nc s) total self false fs = Ok b -> (0 < length b)%nat.
-Proof.
-  intros Hin Hkind Htf Henc. set (allfs := struct_fields_nc s) in *.
-  apply in_split in Hin as (l1 & l2 & ->).
-  destruct (member_offset OP tm (Rk k') sx allfs total self l1 f l2 b Henc) as (b1 & bf & b2 & _ & Hf & _ & -> & _).
-  assert (0 < length bf)%nat.
-  { pose proof Htf as Htf'. unfold member_typed in Htf.
-    destruct Hkind as [(kd & i & Hkd & Hik & Hpos)|(t & Hkd)].
-    - destruct (classify_int_kind tm allfs f kd i Hkd Hik) as [Hft Hc].
-      pose proof (member_size_ok OP tm (Rk k') sx allfs (adm n) Hsub self total f bf Htf' Hf) as Hms.
-      rewrite (cond_self_none tm (Rk k') allfs self f Hc) in Hms. cbn [bind] in Hms. unfold member_size in Hms. rewrite Hft in Hms.
-      injection Hms as Hms. lia.
-    - rewrite Hkd in Htf. destruct Htf as (v & Hv & Hnn & Hav).
-      pose proof (classify_named tm allfs f t Hkd) as (Hc & Hb & Hr & Hft).
-      rewrite (conditional_present OP tm (Rk k') sx allfs total self f t v (cond_self_none tm (Rk k') allfs self f Hc) Hb Hft Hr Hv Hnn) in Hf.
-      exact (proj2 (proj2 (Hsub t v bf [] Hav Hf))). }
-  rewrite !app_length. lia.
-Qed.
+Notation loop_rt' := (fun sx allfs => loop_rt OP tm (Rk k') sx allfs size_bad_now order_same_now get_bytes_bad_now (adm n) Hsub Hpos).
+Notation size_ok' := (fun sx allfs => size_fields_ok OP tm (Rk k') sx allfs (adm n) Hsub Hpos).
+Notation size_nonneg' := (fun allfs => size_fields_nonneg OP tm (Rk k') allfs (adm n) Hpos).
 
 Lemma struct_rt_flat cls vs s b rest :
   lookup_struct tm cls = Some s -> s_name s = cls -> flat_struct s -> map fst vs = map f_name (settable_fields s) ->
   (forall f, In f (struct_fields_nc s) -> member_typed tm (struct_fields_nc s) (adm n) (VStruct cls vs) f) ->
   enc OP tm (S (S k')) cls (VStruct cls vs) = Ok b ->
-  dec OP tm (S (S k')) cls (b ++ rest) = Ok (VStruct cls vs) /\ size OP tm (S (S k')) cls (VStruct cls vs) = Ok (Z.of_nat (length b)) /\ (0 < length b)%nat.
+  dec OP tm (S (S k')) cls (b ++ rest) = Ok (VStruct cls vs) /\ size OP tm (S (S k')) cls (VStruct cls vs) = Ok (Z.of_nat (length b)).
 Proof.
   intros Hls Hname Hflat Hvs Hty Henc. destruct Hflat as [Hlk Hnb Hns Hconc Hnd Hnosz Hord Hfix].
   rewrite enc_struct_value, Hls, enc_struct_S in Henc.
@@ -345,41 +302,22 @@ Proof.
   set (self := VStruct cls vs) in *. set (allfs := struct_fields_nc s) in *.
   assert (Hnsm : forall f, In f allfs -> not_size_member s f) by (intros f _; unfold not_size_member; now rewrite Hns).
   rewrite (ser_fields_first OP tm (Rk k') s allfs total self allfs Hnsm) in Henc.
-  destruct (loop_rt OP tm (Rk k') s allfs size_bad_now order_same_now get_bytes_bad_now (adm n) Hsub
-              allfs [] [] self total b rest [] Hnsm Hord Hnd (fun f Hf => match Hf with end) Hty Henc) as (e' & Hloop & Henv & _).
-  pose proof (size_fields_ok OP tm (Rk k') s allfs (adm n) Hsub allfs self total b Hty Henc) as Hsize.
+  destruct (loop_rt' s allfs allfs [] [] [] self total b rest Hnsm Hord Hnd (fun f Hf => match Hf with end) Hty Henc) as (e' & Hloop & Henv & _).
+  pose proof (size_ok' s allfs allfs self total b Hty Henc) as Hsize.
   assert (Hcollect : collect s e' = vs).
-  { apply (collect_ok s cls vs (adm n) e' allfs Hnd Hvs (settable_sub s) (fun f H => H) (fun f Hf => Hty f (settable_sub s f Hf))). exact Henv. }
-  assert (Hdec : dec OP tm (S (S k')) cls (b ++ rest) = Ok self).
-  { rewrite (dec_struct_type (S k') cls s (b ++ rest)) by (rewrite <- Hname; exact Hlk).
+  { apply (collect_ok (Rk k') s cls vs (adm n) e' allfs Hnd Hvs (settable_sub s) (fun f Hf => Hty f (settable_sub s f Hf))). exact Henv. }
+  split.
+  - rewrite (dec_struct_type (S k') cls s (b ++ rest)) by (rewrite <- Hname; exact Hlk).
     rewrite (dec_struct_S_no_base k' s (b ++ rest) Hconc (base_none s Hnb)), (own_fields_no_base s Hnb). fold allfs. rewrite Hloop. cbn [bind fst].
-    now rewrite Hcollect, Hname. }
-  assert (Hsz' : size OP tm (S (S k')) cls self = Ok (Z.of_nat (length b))).
-  { unfold self. rewrite size_struct_value, Hls, size_struct_S, size_struct_with_eq, (base_none s Hnb), (own_fields_no_base s Hnb). exact Hsize. }
-  repeat split; [exact Hdec | exact Hsz' |].
-  destruct Hfix as (f & Hin & Hkind).
-  apply in_split in Hin as (l1 & l2 & Hl). fold allfs in Hl.
-  assert (Henc2 : serialize_fields_go OP tm (Rk k') s allfs total self false (l1 ++ f :: l2) = Ok b) by (rewrite <- Hl; exact Henc).
-  destruct (member_offset OP tm (Rk k') s allfs total self l1 f l2 b Henc2) as (b1 & bf & b2 & _ & Hf & _ & -> & _).
-  assert (0 < length bf)%nat.
-  { pose proof (Hty f ltac:(rewrite Hl; apply in_or_app; right; now left)) as Htf. unfold member_typed in Htf.
-    destruct Hkind as [(kd & i & Hkd & Hik & Hpos)|(t & Hkd)]; fold allfs in Hkd.
-    - destruct (classify_int_kind tm allfs f kd i Hkd Hik) as [Hft Hc].
-      pose proof (member_size_ok OP tm (Rk k') s allfs (adm n) Hsub self total f bf (Hty f ltac:(rewrite Hl; apply in_or_app; right; now left)) Hf) as Hms.
-      rewrite (cond_self_none tm (Rk k') allfs self f Hc) in Hms. cbn [bind] in Hms. unfold member_size in Hms. rewrite Hft in Hms.
-      injection Hms as Hms. lia.
-    - rewrite Hkd in Htf. destruct Htf as (v & Hv & Hnn & Hav).
-      pose proof (classify_named tm allfs f t Hkd) as (Hc & Hb & Hr & Hft).
-      rewrite (conditional_present OP tm (Rk k') s allfs total self f t v (cond_self_none tm (Rk k') allfs self f Hc) Hb Hft Hr Hv Hnn) in Hf.
-      exact (proj2 (proj2 (Hsub t v bf [] Hav Hf))). }
-  rewrite !app_length. lia.
+    now rewrite Hcollect, Hname.
+  - unfold self. rewrite size_struct_value, Hls, size_struct_S, size_struct_with_eq, (base_none s Hnb), (own_fields_no_base s Hnb). exact Hsize.
 Qed.
 
 Lemma struct_rt_based cls vs s a f0 i hrest b rest :
   lookup_struct tm cls = Some s -> s_name s = cls -> based_struct s a f0 i hrest -> map fst vs = map f_name (settable_fields s) ->
   (forall f, In f (hrest ++ own_fields tm s) -> member_typed tm (struct_fields_nc s) (adm n) (VStruct cls vs) f) ->
   enc OP tm (S (S k')) cls (VStruct cls vs) = Ok b ->
-  dec OP tm (S (S k')) cls (b ++ rest) = Ok (VStruct cls vs) /\ size OP tm (S (S k')) cls (VStruct cls vs) = Ok (Z.of_nat (length b)) /\ (0 < length b)%nat.
+  dec OP tm (S (S k')) cls (b ++ rest) = Ok (VStruct cls vs) /\ size OP tm (S (S k')) cls (VStruct cls vs) = Ok (Z.of_nat (length b)).
 Proof.
   intros Hls Hname Hb Hvs Hty Henc.
   destruct Hb as [Hlk Hbase Hconc Hall Hpar Hnd Hattr_a Hattr_s Hf0n Hf0t Hf0w Hf0u Hf0c Hf0r Hf0s Hord_h Hord_o].
@@ -408,8 +346,8 @@ Proof.
   injection Henc as <-.
   destruct (py_int_roundtrip w false total szb (hr ++ ob ++ rest) Hszb) as [Hx Hlenw].
   (* sizes *)
-  pose proof (size_fields_ok OP tm (Rk k') a allfs (adm n) Hsub hrest self total hr (fun f Hf => Hty f (in_or_app _ _ _ (or_introl Hf))) Hhr) as Hsize_h.
-  pose proof (size_fields_ok OP tm (Rk k') s allfs (adm n) Hsub own self total ob (fun f Hf => Hty f (in_or_app _ _ _ (or_intror Hf))) Hob) as Hsize_o.
+  pose proof (size_ok' a allfs hrest self total hr (fun f Hf => Hty f (in_or_app _ _ _ (or_introl Hf))) Hhr) as Hsize_h.
+  pose proof (size_ok' s allfs own self total ob (fun f Hf => Hty f (in_or_app _ _ _ (or_intror Hf))) Hob) as Hsize_o.
   assert (Htotal : total = Z.of_nat (length ((szb ++ hr) ++ ob))).
   { rewrite size_struct_with_eq, Hbase in Hsz. fold allfs own in Hsz. rewrite Hpar in Hsz. cbn [size_fields] in Hsz.
     rewrite (cond_self_none tm (Rk k') allfs self f0 Hf0c) in Hsz. cbn [bind] in Hsz. unfold member_size in Hsz. rewrite Hf0t in Hsz. cbn [bind] in Hsz.
@@ -422,8 +360,7 @@ Proof.
     rewrite Hx. f_equal. f_equal.
     replace (szb ++ hr ++ ob ++ rest) with (((szb ++ hr) ++ ob) ++ rest) by (now rewrite <- !app_assoc).
     rewrite Htotal, zfirstn_app, <- !app_assoc. apply skipn_app_exact. exact Hlenw. }
-  destruct (loop_rt OP tm (Rk k') a allfs size_bad_now order_same_now get_bytes_bad_now (adm n) Hsub
-              hrest [] [("size", VInt total)] self total hr ob ["size"] Hnsm_h Hord_h
+  destruct (loop_rt' a allfs hrest [] ["size"] [("size", VInt total)] self total hr ob Hnsm_h Hord_h
               ltac:(cbn [app]; rewrite map_app in Hnd'; exact (nodup_app_l _ _ Hnd'))
               (fun f Hf => match Hf with end) (fun f Hf => Hty f (in_or_app _ _ _ (or_introl Hf))) Hhr) as (e1 & Hloop_h & Henv_h & Hkeep_h).
   assert (Hsize_env : eget e1 "size" = Some (VInt total)).
@@ -433,40 +370,35 @@ Proof.
     rewrite (cond_local_none tm allfs [] f0 Hf0c). cbn [bind]. rewrite Hload0. cbn [bind fst snd find drain_queue]. rewrite Hf0n, Hloop_h. cbn [bind fst snd existsb].
     rewrite Hf0n, String.eqb_refl. cbn [orb]. now rewrite Hsize_env. }
   cbn [app] in Henv_h.
-  destruct (loop_rt OP tm (Rk k') s allfs size_bad_now order_same_now get_bytes_bad_now (adm n) Hsub
-              own hrest e1 self total ob [] [] Hnsm_o Hord_o Hnd' Henv_h (fun f Hf => Hty f (in_or_app _ _ _ (or_intror Hf))) Hob) as (e2 & Hloop_o & Henv_o & _).
+  destruct (loop_rt' s allfs own hrest [] e1 self total ob [] Hnsm_o Hord_o Hnd' Henv_h (fun f Hf => Hty f (in_or_app _ _ _ (or_intror Hf))) Hob) as (e2 & Hloop_o & Henv_o & _).
   assert (Hsettable : forall f, In f (settable_fields s) -> In f (hrest ++ own)).
   { intros f Hf. unfold settable_fields in Hf. fold (struct_fields_nc s) in Hf. fold allfs in Hf.
     assert (Hfl : filter (is_settable allfs) allfs = f0 :: filter (is_settable allfs) (hrest ++ own)).
     { rewrite Hall at 2. cbn [filter]. now rewrite Hf0s. }
     rewrite Hfl in Hf. cbn [drop_first_size] in Hf. rewrite Hf0n, String.eqb_refl in Hf. apply filter_In in Hf. tauto. }
   assert (Hcollect : collect s e2 = vs).
-  { apply (collect_ok s cls vs (adm n) e2 (hrest ++ own)).
+  { apply (collect_ok (Rk k') s cls vs (adm n) e2 (hrest ++ own)).
     - fold allfs. rewrite Hall. cbn [map]. constructor; assumption.
     - exact Hvs.
     - exact Hsettable.
-    - intros f Hf. fold allfs. rewrite Hall. now right.
     - intros f Hf. apply Hty, Hsettable, Hf.
     - exact Henv_o. }
-  assert (Hdec : dec OP tm (S (S k')) cls (((szb ++ hr) ++ ob) ++ rest) = Ok self).
-  { rewrite (dec_struct_type (S k') cls s) by (rewrite <- Hname; exact Hlk).
+  split.
+  - rewrite (dec_struct_type (S k') cls s) by (rewrite <- Hname; exact Hlk).
     rewrite (dec_struct_S_base k' s a _ Hconc Hbase). fold allfs own. rewrite Hheader. cbn [bind].
     replace (zskipn (total - Z.of_nat (length ob)) (zfirstn total (((szb ++ hr) ++ ob) ++ rest))) with (ob ++ []).
     2:{ rewrite Htotal at 2. rewrite zfirstn_app, app_nil_r.
         replace (total - Z.of_nat (length ob)) with (Z.of_nat (length (szb ++ hr))) by (rewrite Htotal, !app_length; lia).
         now rewrite zskipn_app. }
-    rewrite Hloop_o. cbn [bind fst]. now rewrite Hcollect, Hname. }
-  assert (Hsz' : size OP tm (S (S k')) cls self = Ok (Z.of_nat (length ((szb ++ hr) ++ ob)))).
-  { unfold self. rewrite size_struct_value, Hls, size_struct_S. fold self. rewrite Hsz. f_equal. exact Htotal. }
-  repeat split; [exact Hdec | exact Hsz' |].
-  rewrite !app_length, Hlenw. unfold w. lia.
+    rewrite Hloop_o. cbn [bind fst]. now rewrite Hcollect, Hname.
+  - unfold self. rewrite size_struct_value, Hls, size_struct_S. fold self. rewrite Hsz. f_equal. exact Htotal.
 Qed.
 
 Lemma struct_rt_nosize cls vs s a hfs b rest :
   lookup_struct tm cls = Some s -> s_name s = cls -> based_nosize_struct s a hfs -> map fst vs = map f_name (settable_fields s) ->
   (forall f, In f (struct_fields_nc s) -> member_typed tm (struct_fields_nc s) (adm n) (VStruct cls vs) f) ->
   enc OP tm (S (S k')) cls (VStruct cls vs) = Ok b ->
-  dec OP tm (S (S k')) cls (b ++ rest) = Ok (VStruct cls vs) /\ size OP tm (S (S k')) cls (VStruct cls vs) = Ok (Z.of_nat (length b)) /\ (0 < length b)%nat.
+  dec OP tm (S (S k')) cls (b ++ rest) = Ok (VStruct cls vs) /\ size OP tm (S (S k')) cls (VStruct cls vs) = Ok (Z.of_nat (length b)).
 Proof.
   intros Hls Hname Hb Hvs Hty Henc.
   destruct Hb as [Hlk Hbase Hconc Hall Hpar Hnd Hattr_a Hattr_s Hnosz Hord_h Hord_o Hfix].
@@ -483,18 +415,16 @@ Proof.
   destruct (serialize_fields_go OP tm (Rk k') a allfs total self false hfs) as [hb| |] eqn:Hhb; cbn [bind] in Henc; try discriminate.
   destruct (serialize_fields_go OP tm (Rk k') s allfs total self false own) as [ob| |] eqn:Hob; cbn [bind] in Henc; try discriminate.
   injection Henc as <-.
-  pose proof (size_fields_ok OP tm (Rk k') a allfs (adm n) Hsub hfs self total hb Hty_h Hhb) as Hsize_h.
-  pose proof (size_fields_ok OP tm (Rk k') s allfs (adm n) Hsub own self total ob Hty_o Hob) as Hsize_o.
+  pose proof (size_ok' a allfs hfs self total hb Hty_h Hhb) as Hsize_h.
+  pose proof (size_ok' s allfs own self total ob Hty_o Hob) as Hsize_o.
   assert (Htotal : total = Z.of_nat (length (hb ++ ob))).
   { rewrite size_struct_with_eq, Hbase in Hsz. fold allfs own in Hsz. rewrite Hpar, Hsize_h in Hsz. cbn [bind] in Hsz. rewrite Hsize_o in Hsz. cbn [bind] in Hsz.
     injection Hsz as <-. rewrite app_length. lia. }
-  destruct (loop_rt OP tm (Rk k') a allfs size_bad_now order_same_now get_bytes_bad_now (adm n) Hsub
-              hfs [] [] self total hb (ob ++ rest) [] Hnsm_h Hord_h
+  destruct (loop_rt' a allfs hfs [] [] [] self total hb (ob ++ rest) Hnsm_h Hord_h
               ltac:(cbn [app]; rewrite map_app in Hnd; exact (nodup_app_l _ _ Hnd))
               (fun f Hf => match Hf with end) Hty_h Hhb) as (e1 & Hloop_h & Henv_h & _).
   cbn [app] in Henv_h.
-  destruct (loop_rt OP tm (Rk k') s allfs size_bad_now order_same_now get_bytes_bad_now (adm n) Hsub
-              own hfs e1 self total ob rest [] Hnsm_o Hord_o Hnd Henv_h Hty_o Hob) as (e2 & Hloop_o & Henv_o & _).
+  destruct (loop_rt' s allfs own hfs [] e1 self total ob rest Hnsm_o Hord_o Hnd Henv_h Hty_o Hob) as (e2 & Hloop_o & Henv_o & _).
   assert (Hhas : existsb (fun f => String.eqb (f_name f) "size") hfs = false).
   { destruct (existsb (fun f => String.eqb (f_name f) "size") hfs) eqn:Hex; [|reflexivity]. exfalso.
     apply existsb_exists in Hex as (f & Hf & Heq). apply String.eqb_eq in Heq.
@@ -504,50 +434,87 @@ Proof.
   { unfold dec_header_with. rewrite Hpar, <- app_assoc, Hloop_h. cbn [bind fst snd]. now rewrite Hhas. }
   assert (Hnd_all : NoDup (map f_name allfs)) by (rewrite Hall; exact Hnd).
   assert (Hcollect : collect s e2 = vs).
-  { apply (collect_ok s cls vs (adm n) e2 (hfs ++ own) Hnd_all Hvs).
+  { apply (collect_ok (Rk k') s cls vs (adm n) e2 (hfs ++ own) Hnd_all Hvs).
     - intros f Hf. apply settable_sub in Hf. change (In f allfs) in Hf. now rewrite Hall in Hf.
-    - intros f Hf. change (In f allfs). now rewrite Hall.
     - intros f Hf. apply Hty, settable_sub, Hf.
     - exact Henv_o. }
-  assert (Hdec : dec OP tm (S (S k')) cls ((hb ++ ob) ++ rest) = Ok self).
-  { rewrite (dec_struct_type (S k') cls s) by (rewrite <- Hname; exact Hlk).
+  split.
+  - rewrite (dec_struct_type (S k') cls s) by (rewrite <- Hname; exact Hlk).
     rewrite (dec_struct_S_base k' s a _ Hconc Hbase). fold allfs own. rewrite Hheader. cbn [bind].
     replace (zskipn _ (zfirstn _ ((hb ++ ob) ++ rest))) with (ob ++ rest).
     2:{ unfold zfirstn at 1. rewrite Z.leb_refl. rewrite <- app_assoc.
         replace (Z.of_nat (length (hb ++ ob ++ rest)) - Z.of_nat (length (ob ++ rest))) with (Z.of_nat (length hb)) by (rewrite !app_length; lia).
         now rewrite zskipn_app. }
-    rewrite Hloop_o. cbn [bind fst]. now rewrite Hcollect, Hname. }
-  assert (Hsz' : size OP tm (S (S k')) cls self = Ok (Z.of_nat (length (hb ++ ob)))).
-  { unfold self. rewrite size_struct_value, Hls, size_struct_S. fold self. rewrite Hsz. f_equal. exact Htotal. }
-  repeat split; [exact Hdec | exact Hsz' |].
-  destruct Hfix as (f & Hin & Hpos). fold allfs in Hin, Hpos. rewrite Hall in Hin.
-  rewrite app_length. apply in_app_or in Hin as [Hin|Hin].
-  - pose proof (ser_fields_pos a s self total hfs f hb Hin Hpos (Hty_h f Hin) Hhb). lia.
-  - pose proof (ser_fields_pos s s self total own f ob Hin Hpos (Hty_o f Hin) Hob). lia.
+    rewrite Hloop_o. cbn [bind fst]. now rewrite Hcollect, Hname.
+  - unfold self. rewrite size_struct_value, Hls, size_struct_S. fold self. rewrite Hsz. f_equal. exact Htotal.
+Qed.
+
+(* the size of an admissible struct value is positive whenever it is defined *)
+Lemma struct_size_pos cls vs s sz :
+  lookup_struct tm cls = Some s -> struct_ok s ->
+  (forall f, In f (typed_members s) -> member_typed tm (struct_fields_nc s) (adm n) (VStruct cls vs) f) ->
+  size OP tm (S (S k')) cls (VStruct cls vs) = Ok sz -> 0 < sz.
+Proof.
+  intros Hls Hok Hty Hsz. rewrite size_struct_value, Hls, size_struct_S, size_struct_with_eq in Hsz. unfold typed_members in Hty.
+  set (self := VStruct cls vs) in *. set (allfs := struct_fields_nc s) in *.
+  destruct Hok as [Hflat|[(a & f0 & i & hrest & Hb)|(a & hfs & Hb)]].
+  - destruct Hflat as [Hlk Hnb Hns Hconc Hnd Hnosz Hord Hfix]. rewrite (base_none s Hnb) in Hsz, Hty. rewrite (own_fields_no_base s Hnb) in Hsz.
+    exact (proj2 (size_nonneg' allfs allfs self sz Hty Hsz) Hfix).
+  - destruct Hb as [Hlk Hbase Hconc Hall Hpar Hnd Hattr_a Hattr_s Hf0n Hf0t Hf0w Hf0u Hf0c Hf0r Hf0s Hord_h Hord_o].
+    rewrite Hbase in Hsz, Hty. rewrite Hattr_a in Hty. fold allfs in Hall. rewrite Hpar in Hsz.
+    assert (Hty' : forall f, In f (hrest ++ own_fields tm s) -> member_typed tm allfs (adm n) self f) by (intros f Hf; apply Hty; rewrite Hall; exact Hf).
+    clear Hty. rename Hty' into Hty.
+    cbn [size_fields] in Hsz. rewrite (cond_self_none tm (Rk k') allfs self f0 Hf0c) in Hsz. cbn [bind] in Hsz. unfold member_size in Hsz. rewrite Hf0t in Hsz. cbn [bind] in Hsz.
+    destruct (size_fields OP tm (Rk k') allfs self hrest) as [x| |] eqn:Hx; cbn [bind] in Hsz; try discriminate.
+    destruct (size_fields OP tm (Rk k') allfs self (own_fields tm s)) as [y| |] eqn:Hy; cbn [bind] in Hsz; try discriminate.
+    injection Hsz as <-.
+    pose proof (proj1 (size_nonneg' allfs hrest self x (fun f Hf => Hty f (in_or_app _ _ _ (or_introl Hf))) Hx)).
+    pose proof (proj1 (size_nonneg' allfs (own_fields tm s) self y (fun f Hf => Hty f (in_or_app _ _ _ (or_intror Hf))) Hy)). lia.
+  - destruct Hb as [Hlk Hbase Hconc Hall Hpar Hnd Hattr_a Hattr_s Hnosz Hord_h Hord_o Hfix].
+    rewrite Hbase in Hsz, Hty. rewrite Hattr_a in Hty. fold allfs in Hall. rewrite Hpar in Hsz.
+    assert (Hty' : forall f, In f allfs -> member_typed tm allfs (adm n) self f) by (intros f Hf; apply Hty; destruct allfs; exact Hf).
+    destruct (size_fields OP tm (Rk k') allfs self hfs) as [x| |] eqn:Hx; cbn [bind] in Hsz; try discriminate.
+    destruct (size_fields OP tm (Rk k') allfs self (own_fields tm s)) as [y| |] eqn:Hy; cbn [bind] in Hsz; try discriminate.
+    injection Hsz as <-.
+    destruct (size_nonneg' allfs hfs self x (fun f Hf => Hty' f ltac:(rewrite Hall; apply in_or_app; now left)) Hx) as [Hx0 Hxp].
+    destruct (size_nonneg' allfs (own_fields tm s) self y (fun f Hf => Hty' f ltac:(rewrite Hall; apply in_or_app; now right)) Hy) as [Hy0 Hyp].
+    destruct Hfix as (f & Hin & Hp). change (In f allfs) in Hin. rewrite Hall in Hin. apply in_app_or in Hin as [Hin|Hin].
+    + specialize (Hxp (ex_intro _ f (conj Hin Hp))). lia.
+    + specialize (Hyp (ex_intro _ f (conj Hin Hp))). lia.
 Qed.
 
 End OneLevel.
 
 Theorem RT_all : forall n, RT n.
 Proof.
-  induction n as [|n IH]; intros k Hk t v b rest Hadm Henc.
-  - destruct v; try (cbn in Hadm; contradiction); (eapply RT_leaf; [lia | exact I | exact Hadm | exact Henc]).
+  induction n as [|n IH]; intros k Hk t v Hadm.
+  - destruct v; try (cbn in Hadm; contradiction); (apply RT_leaf; [lia | exact I | exact Hadm]).
   - destruct v as [z|bs|l|cls vs|]; try (cbn in Hadm; contradiction).
-    + eapply RT_leaf; [lia | exact I | eapply adm_leaf_any; [exact I | exact Hadm] | exact Henc].
-    + eapply RT_leaf; [lia | exact I | eapply adm_leaf_any; [exact I | exact Hadm] | exact Henc].
+    + apply RT_leaf; [lia | exact I | eapply adm_leaf_any; [exact I | exact Hadm]].
+    + apply RT_leaf; [lia | exact I | eapply adm_leaf_any; [exact I | exact Hadm]].
     + cbn [adm] in Hadm. destruct Hadm as (-> & Hadm). destruct (lookup_struct tm cls) as [s|] eqn:Hls; [|contradiction].
       destruct Hadm as (Hname & Hok & Hvs & Hty).
       destruct k as [|[|k']]; try lia.
       assert (Hsub : forall t' v' b' rest', adm n t' v' -> enc_t (Rk k') t' v' = Ok b' ->
-                 dec_t (Rk k') t' (b' ++ rest') = Ok v' /\ size_t (Rk k') t' v' = Ok (Z.of_nat (length b')) /\ (0 < length b')%nat).
-      { intros t' v' b' rest' Ha He. cbn [Rk enc_t dec_t size_t] in *. apply (IH k' ltac:(lia) t' v' b' rest' Ha He). }
-      destruct Hok as [Hflat|[(a & f0 & i & hrest & Hbased)|(a & hfs & Hbn)]].
-      * refine (struct_rt_flat n k' Hsub cls vs s b rest Hls Hname Hflat Hvs _ Henc).
-        intros f Hf. apply Hty. unfold typed_members. now rewrite (base_none s (fs_no_base s Hflat)).
-      * refine (struct_rt_based n k' Hsub cls vs s a f0 i hrest b rest Hls Hname Hbased Hvs _ Henc).
-        intros f Hf. apply Hty. unfold typed_members. rewrite (bs_base _ _ _ _ _ Hbased), (bs_attr_a _ _ _ _ _ Hbased), (bs_all _ _ _ _ _ Hbased). exact Hf.
-      * refine (struct_rt_nosize n k' Hsub cls vs s a hfs b rest Hls Hname Hbn Hvs _ Henc).
-        intros f Hf. apply Hty. unfold typed_members. rewrite (bn_base _ _ _ Hbn), (bn_attr_a _ _ _ Hbn). exact Hf.
+                 dec_any tm (Rk k') t' (b' ++ rest') = Ok v' /\ size_t (Rk k') t' v' = Ok (Z.of_nat (length b')) /\ (0 < length b')%nat).
+      { intros t' v' b' rest' Ha He. unfold dec_any. rewrite (adm_not_abs n t' v' Ha). cbn [Rk enc_t dec_t size_t] in *.
+        exact (proj1 (IH k' ltac:(lia) t' v' Ha) b' rest' He). }
+      assert (Hpos : forall t' v' sz, adm n t' v' -> size_t (Rk k') t' v' = Ok sz -> 0 < sz).
+      { intros t' v' sz Ha Hs. cbn [Rk size_t] in Hs. exact (proj2 (IH k' ltac:(lia) t' v' Ha) sz Hs). }
+      pose proof (struct_size_pos n k' Hpos cls vs s) as Hsp.
+      assert (Hrt : forall b rest, enc OP tm (S (S k')) cls (VStruct cls vs) = Ok b ->
+                dec OP tm (S (S k')) cls (b ++ rest) = Ok (VStruct cls vs) /\ size OP tm (S (S k')) cls (VStruct cls vs) = Ok (Z.of_nat (length b))).
+      { intros b rest Henc. destruct Hok as [Hflat|[(a & f0 & i & hrest & Hbased)|(a & hfs & Hbn)]].
+        * refine (struct_rt_flat n k' Hsub Hpos cls vs s b rest Hls Hname Hflat Hvs _ Henc).
+          intros f Hf. apply Hty. unfold typed_members. now rewrite (base_none s (fs_no_base s Hflat)).
+        * refine (struct_rt_based n k' Hsub Hpos cls vs s a f0 i hrest b rest Hls Hname Hbased Hvs _ Henc).
+          intros f Hf. apply Hty. unfold typed_members. rewrite (bs_base _ _ _ _ _ Hbased), (bs_attr_a _ _ _ _ _ Hbased), (bs_all _ _ _ _ _ Hbased). exact Hf.
+        * refine (struct_rt_nosize n k' Hsub Hpos cls vs s a hfs b rest Hls Hname Hbn Hvs _ Henc).
+          intros f Hf. apply Hty. unfold typed_members. rewrite (bn_base _ _ _ Hbn), (bn_attr_a _ _ _ Hbn). exact Hf. }
+      split.
+      * intros b rest Henc. destruct (Hrt b rest Henc) as [Hd Hs]. repeat split; [exact Hd | exact Hs|].
+        pose proof (Hsp (Z.of_nat (length b)) Hls Hok Hty Hs). lia.
+      * intros sz Hs. exact (Hsp sz Hls Hok Hty Hs).
 Qed.
 
 End Flat.
